@@ -144,7 +144,8 @@ class ProductOfSums(AbstractControlValues):
 
     def __init__(self, data: Sequence[int | Collection[int]]):
         self._qubit_sums: tuple[tuple[int, ...], ...] = tuple(
-            (cv,) if isinstance(cv, int) else tuple(sorted(set(cv))) for cv in data
+            (int(cv),) if isinstance(cv, int) else tuple(sorted({int(v) for v in cv}))
+            for cv in data
         )
 
     @cached_property
@@ -243,7 +244,9 @@ class SumOfProducts(AbstractControlValues):
     """
 
     def __init__(self, data: Collection[Sequence[int]], *, name: str | None = None):
-        self._conjunctions: tuple[tuple[int, ...], ...] = tuple(sorted({tuple(cv) for cv in data}))
+        self._conjunctions: tuple[tuple[int, ...], ...] = tuple(
+            sorted({tuple(int(v) for v in cv) for cv in data})
+        )
         self._name = name
         if not len(self._conjunctions):
             raise ValueError("SumOfProducts can't be empty.")
